@@ -37,6 +37,10 @@ func VerifC16_Expiration() {
 	} else {
 		nc.Spec.ExpireAfter = v1.NillableDuration{} // "Never"
 	}
+	// other lifetime settings of the NodeClaim must not move the expiry
+	if verifrt.Choice("terminationGracePeriod.set", 0, 1) == 1 {
+		nc.Spec.TerminationGracePeriod = &metav1.Duration{Duration: verifrt.Duration("terminationGracePeriod", 0, 10*365*24*time.Hour)}
+	}
 	deleting := verifrt.Choice("deleting", 0, 1) == 1
 	if deleting {
 		nc.DeletionTimestamp = &metav1.Time{Time: verifrt.Time("deletedAt")}
